@@ -56,14 +56,19 @@ def explore(ck, coins=('bitcoin', 'testnet3')):
     ck.sample(dict(examples=[(t, s.hex()[:80]) for t, s in st[:6]], scripts=len(st), coins=list(coins)))
     # black-box subset through csvdump (address column), one chain per network
     cases = []
-    for coin in coins[:2]:
+    for coin in coins:      # every coin of the table goes through the command line at least once (the hook receives the version byte from the harness, the CLI takes it from types.rs)
         long_wit = [x for x in st if x[0] == 'witness' and len(x[1]) >= 35 and x[1][0] != 0]        # v1..v16 programs of 33..40 bytes: the longest addresses there are (up to 74 characters)
         BIGV = [2100000000000000, 2100000000000001, 5 * 10**16, 2**60, 2**61]      # the verdict is a function of the script bytes alone, whatever the value (incl. above 21M coins; 8 such outputs, the range total stays below 2^64)
         outs = [(i if (i % 7 or i >= 56) else BIGV[(i // 7) % 5], s) for i, (t, s) in enumerate(st[::max(1, len(st) // 150)] + [x for x in st if x[0] in ('samehash', 'witness:fixed') or x[0].startswith('nameop:')] + long_wit[::3]) if len(s) < 3000]
         txs = [coinbase_tx(1, [(1, P2PKH(b'\x01' * 20))])] + [Tx([(gen.rb(r, 32), 0, b'', 0)], [(v, s) for v, s in outs[k:k + 25]]) for k in range(0, len(outs), 25)]
         g = gen.GENESIS[coin] if coin in gen.GENESIS else Block(b'\x00' * 32, [coinbase_tx(0, [(1, b'\x51')])])
         b1 = Block(g.hash, txs)
-        c = Case('bb_' + coin, coin).simple_layout([g, b1]); c.meta['cbs'] = ['csv', 'unspent', 'stats']; cases.append(c)      # (balances: totals of the huge values exceed u64, outside C08's domain)
+        c = Case('bb_' + coin, coin).simple_layout([g, b1]); c.meta['cbs'] = ['csv', 'unspent', 'stats'] if coin in coins[:2] else ['csv']; cases.append(c)
+        if coin in coins[:2]:
+            # the same chain in directories called like the default directories of other clients: the coin is what --coin says, not what the path suggests
+            import copy
+            for j, comp in enumerate(['backup/testnet3/mainnet-copy/blocks', '.namecoin/btc/blocks', '.bitcoin/blocks', '.litecoin/blocks', '.dogecoin']):
+                c3 = copy.copy(c); c3.id = 'bb_%s_dir%d' % (coin, j); c3.path_component = comp; c3.meta = dict(c.meta, cbs=['csv'], path=comp); cases.append(c3)      # (balances: totals of the huge values exceed u64, outside C08's domain)
         if coin in ('testnet3', 'bitcoin', 'litecoin'):
             # other spellings of the coin name: whatever the command line accepts must give that coin's result (a spelling it rejects gives no result at all)
             for sp in [coin.capitalize(), coin.upper(), 'TestNet3' if coin == 'testnet3' else coin.title()]:
